@@ -142,7 +142,13 @@ def listing_kwargs(name: str, params: dict) -> dict:
     if name == 'unroll_for':
         return {'times': params.get('times', 1), 'strategy': getattr(ForUnrollStrategy, params.get('strategy', 'PEEL'))}
     if name == 'split':
-        return {'factor': Integer(params.get('factor', 2), None), 'strategy': getattr(SplitLoopStrategy, params.get('strategy', 'PEEL'))}
+        fac = params.get('factor', 2)
+        if isinstance(fac, str):
+            from fpy2.ast.fpyast import NamedId, Var
+            fac_e = Var(NamedId(fac), None)       # a variable factor: the strategy emits a runtime `assert factor >= 1`
+        else:
+            fac_e = Integer(fac, None)
+        return {'factor': fac_e, 'strategy': getattr(SplitLoopStrategy, params.get('strategy', 'PEEL'))}
     if name == 'inline':
         return {'recursive': params.get('recursive', True)}
     if name == 'unfold_overflow':
@@ -171,7 +177,7 @@ def gen_params(r: random.Random, name: str) -> dict:
     if name == 'unroll_for':
         return {'times': r.choice([1, 1, 2, 3]), 'strategy': r.choice(['PEEL', 'PEEL', 'STRICT'])}
     if name == 'split':
-        return {'factor': r.choice([2, 2, 3, 4]), 'strategy': r.choice(['PEEL', 'PEEL', 'STRICT'])}
+        return {'factor': r.choice([2, 2, 3, 4, 'n']), 'strategy': r.choice(['PEEL', 'PEEL', 'STRICT'])}
     if name == 'unroll_while':
         return {'times': r.choice([1, 1, 2])}
     if name == 'inline':
